@@ -151,7 +151,10 @@ theorem main_written_iff (fs : Bytes → Option Bytes) (main : Bytes) (f : List 
     have hs := (success_iff fs main o hr).mpr ⟨hd, hc⟩
     simp [mainOut, hr, ofOutcome, hs, hp]
 
-/-- C18.F4 `main_written`  The written file reproduces the assembled image (all conclusions of `trias_of_run`). -/
+/-- C18.F4 `main_written`  The written file reproduces the assembled image: every conclusion of `trias_of_run` — program
+bytes read back at their addresses, touched pages padded with zeros and untouched pages absent, 256-byte page blocks
+numbered consecutively with the RP2040 family id at ascending distinct addresses, and the boot-sector checksum word =
+CRC-32/MPEG-2 of the 252 boot bytes when 0x10000000 is occupied — holds of the bytes `trias` wrote. -/
 theorem main_written (fs : Bytes → Option Bytes) (main : Bytes) (f : List UInt8) (hm : mainOut fs main = .written f) :
     ∃ o, run fs main = .done o ∧ o.diags = [] ∧
     (∃ bs, read f = some bs ∧ ∀ x v, Trias.lookup o.image x = some v → image bs x = some v) ∧
@@ -160,10 +163,17 @@ theorem main_written (fs : Bytes → Option Bytes) (main : Bytes) (f : List UInt
       (¬ TouchedF (Trias.lookup o.image) x → image bs x = none)) ∧
     (∃ bs, read f = some bs ∧ f.length = 512 * bs.length ∧
       (∀ k (hk : k < bs.length), bs[k].psize = 256 ∧ bs[k].addr % 256 = 0 ∧ bs[k].blockNo = k ∧
-        bs[k].numBlocks = bs.length ∧ bs[k].fam = 0xE48BFF56 ∧ bs[k].flags = 0x2000)) := by
+        bs[k].numBlocks = bs.length ∧ bs[k].fam = 0xE48BFF56 ∧ bs[k].flags = 0x2000) ∧
+      (∀ j k (hj : j < bs.length) (hk : k < bs.length), j < k → bs[j].addr + 256 ≤ bs[k].addr) ∧
+      (∀ j k (hj : j < bs.length) (hk : k < bs.length), j ≠ k → bs[j].addr ≠ bs[k].addr)) ∧
+    ((Trias.lookup o.image 0x10000000).isSome →
+      ∃ bs b0 b1 b2 b3, read f = some bs ∧
+        image bs 0x100000FC = some b0 ∧ image bs 0x100000FD = some b1 ∧
+        image bs 0x100000FE = some b2 ∧ image bs 0x100000FF = some b3 ∧
+        b0.toNat + 256 * b1.toNat + 65536 * b2.toNat + 16777216 * b3.toNat =
+          (Trion.Crc.Spec.crc ((bootBytes o.image).map UInt8.toBitVec)).toNat) := by
   obtain ⟨o, hr, hd, _, hp⟩ := (main_written_iff fs main f).mp hm
-  obtain ⟨h1, h2, ⟨bs, g1, g2, g3, _⟩, _⟩ := trias_of_run fs main o hr f hp
-  exact ⟨o, hr, hd, h1, h2, ⟨bs, g1, g2, g3⟩⟩
+  exact ⟨o, hr, hd, trias_of_run fs main o hr f hp⟩
 
 /-- C18.F5 `main_cases`  Totality of the part in front of the post-processing: the assembler never panics and its
 task loop ends, so `trias` writes the file, refuses, or stops for a missing source file / an include nesting beyond
